@@ -8,7 +8,7 @@ import calcrun
 from drivers.calcgen import Prog, world_tables, MODES
 from checks import calcmodel
 
-LINEAR = ['A', 'B', 'AB', 'A2', 'ApB', 'DpB', 'Bi']
+LINEAR = ['A', 'B', 'AB', 'A2', 'ApB', 'DpB', 'Bi', 'ApBD']
 QUANTIZED = ['D', 'E']
 
 
@@ -57,11 +57,13 @@ def programs(ctx):
     p = Prog('c01err')
     alltypes = LINEAR + QUANTIZED + ['N', 'T', 'Money']
     for t1 in alltypes:
-        u1 = by_type[t1][-1]
-        p.make(1, t1, F(5, 2), u1)
-        for t2 in alltypes:
-            for u2 in by_type[t2][:2]:
-                p.convert(1, u2, 2)
+        for (u1, a) in ((by_type[t1][-1], F(5, 2)), (by_type[t1][0], F(0)), (by_type[t1][-1], F(-3)), (by_type[t1][0], F(1))):
+            if units[u1]['quantum']:
+                a = units[u1]['quantum'] * int(a * 2)
+            p.make(1, t1, a, u1)
+            for t2 in alltypes:
+                for u2 in by_type[t2][:2]:
+                    p.convert(1, u2, 2)
     progs.append(p.d())
     # random chains with larger values
     nrand = 40 if quick else 400
